@@ -186,6 +186,15 @@ def run_remove(i, case, cnt, out):
                             ks = [content(b) for b in rb]
                             if len(set(ks)) != len(ks):
                                 out["viols"].append(_viol("not_condensed", "remove_cand/" + shape, i, "condense=True left equal ballots unmerged", cfg))
+    # default arguments (condense=True, leave_zero_weight_ballots=False) must behave as when spelled out
+    for rem in (list(cs[:1]), cs[0]):
+        try:
+            a = remove_cand(rem, prof)
+            b = remove_cand(rem, prof, True, False)
+            if vkit.canon_profile(a) != vkit.canon_profile(b) or tuple(a.candidates) != tuple(b.candidates):
+                out["viols"].append(_viol("defaults", "remove_cand/profile", i, "default arguments differ from condense=True, leave_zero_weight_ballots=False"))
+        except Exception as e:
+            out["viols"].append(_viol("exception", "remove_cand/profile", i, f"{type(e).__name__}: {e}", {"removed": rem, "defaults": True}))
     cnt["nontrivial"] += 1
 
 
